@@ -5,11 +5,13 @@ from . import common, tlc, export, sasm
 
 def write_batch(d, name, root, cases, w, defs='', consts=None, extra_cfg=''):
     progs_txt, groups = export.export_batch(cases)
+    with open(os.path.join(d, 'BatchData.tla'), 'w') as f:
+        f.write('---- MODULE BatchData ----\nEXTENDS SphinxCode\nMCProgs == %s\n%s\n====\n' % (progs_txt, defs))
     with open(os.path.join(d, name + '.tla'), 'w') as f:
-        f.write('---- MODULE %s ----\nEXTENDS %s\nMCProgs == %s\n%s\n====\n' % (name, root, progs_txt, defs))
+        f.write('---- MODULE %s ----\nEXTENDS %s\n====\n' % (name, root))
     consts = dict(consts or {})
     with open(os.path.join(d, name + '.cfg'), 'w') as f:
-        f.write('SPECIFICATION Spec\nCONSTRAINT Fuel\nCONSTANTS\n W = %d\n Progs <- MCProgs\n' % w)
+        f.write('SPECIFICATION Spec\nCONSTRAINT Fuel\nCONSTANTS\n W = %d\n' % w)
         for k, v in consts.items():
             f.write(' %s = %s\n' % (k, v))
         f.write(extra_cfg)
